@@ -241,6 +241,59 @@ def _model(v, tier):
     return [{"sc": i + 1, "steps": h} for i, h in enumerate(hs)], mc, len(fs)
 
 
+# ---- family catalogue: configuration -> builder catalogue (spec/BuilderCatalogue.tla; main.go: obtainBuilderConfigs) ----
+CAT_PKG = "."
+CAT_TEST = "TestVerifC09Catalogue"
+CAT_INVARIANTS = ("ExcludedNeverScores", "OwnEntryWins", "PrivilegedOutranksExcluded", "OnlyNamed", "RefusedIffUnreadable")
+
+
+def cat_driver(scenarios, tag):
+    return vf.run_driver(PID, CAT_PKG, CAT_TEST, scenarios, "cat-" + tag, timeout=900)
+
+
+def cat_sig_of(s):
+    steps = s["steps"]
+    return {"family": "catalogue", "variant": "catalogue",
+            "excluded": sorted(x["b"] for x in steps if x["ev"] == "Exclude"),
+            "privileged": sorted(x["b"] for x in steps if x["ev"] == "Privilege"),
+            "configured": sorted(set(x["b"] for x in steps if x["ev"] == "Configure"))}
+
+
+def cat_nontrivial(s, rows):
+    """A catalogue was returned for a configuration in which some builder is named by two sources (the
+    precedence between the lists and the entries was exercised), or a configuration was refused."""
+    ex, pr, cf = set(), set(), set()
+    for x, r in zip(s["steps"], rows):
+        if x["ev"] == "Exclude":
+            ex.add(x["b"])
+        elif x["ev"] == "Privilege":
+            pr.add(x["b"])
+        elif x["ev"] == "Configure":
+            cf.add(x["b"])
+        elif x["ev"] == "Build" and ((ex & pr) or (ex & cf) or (pr & cf) or r.get("reply") == "error"):
+            return True
+    return False
+
+
+def catalogue(v, tier):
+    n = 120 if tier == "quick" else 1500
+    r = vf.tlc_exhaustive(PID, "BuilderCatalogue", "MC_BuilderCatalogue.cfg" if tier == "quick" else "MC_BuilderCatalogue_big.cfg",
+                          workers=8, timeout=1200, heap="2g", name="mc-catalogue")
+    v.add_mc(r)
+    d = vf.tlc(PID, "self-catalogue-excluded-last", "BuilderCatalogue", "MC_BuilderCatalogue_dev_excluded_last.cfg", workers=1,
+               timeout=600, heap="1g")
+    if d["kind"] != "invariant" or d["violated"] not in CAT_INVARIANTS:
+        raise vf.Broken("model self-check failed: the excluded-last design is not rejected (%s %s)" % (d["kind"], d["violated"]))
+    vf.log("model self-check: a catalogue in which the excluded list outranks the privileged list violates %s (as it must)" % d["violated"])
+    hs = vf.tlc_scenarios(PID, "Scen_BuilderCatalogue", "Scen_BuilderCatalogue.cfg", num=int(n * 1.05), depth=14, name="scen-catalogue",
+                          heap="1g")[:n]
+    sc = [{"sc": 100000 + i, "steps": h} for i, h in enumerate(hs)]
+    builds = sum(1 for s in sc for x in s["steps"] if x["ev"] == "Build")
+    vf.log("catalogue family: %d histories, %d Build steps" % (len(sc), builds))
+    vf.conformance(v, sc, cat_driver, "Trace_BuilderCatalogue", "Trace_BuilderCatalogue.cfg", cat_sig_of, cat_nontrivial)
+    REAL["catalogues_asked_of_obtainBuilderConfigs"] = builds
+
+
 def run(tier):
     v = vf.Verdict(PID, tier)
     v.assumptions = [
@@ -256,6 +309,9 @@ def run(tier):
         "between the block relay service and the strategy (the service itself passes the catalogue it was created with)",
         "timing: every delivery/return instant is classified before/ambiguous/after each time-out with a tolerance of 25% of "
         "the time-out (100 ms); TLC chooses for ambiguous instants; runs during which the process stalled are repeated or widened",
+        "catalogue family: the builder catalogue itself is what the real obtainBuilderConfigs of package main returns for a "
+        "configuration document generated from the history and read by viper (YAML; keys spelled with or without 0x, in either "
+        "case; numbers bare or quoted); up to three builders, the categories / factors / offsets of BuilderCatalogue.tla",
         "BuilderBid is only asked for keys that have been auctioned (no immediate auction on a cache miss); the slots of a "
         "history lie within the 32 slots the bid cache keeps",
     ]
@@ -270,6 +326,7 @@ def run(tier):
     vf.log("histories: %d (%s)" % (len(sc), ", ".join("%s %d" % kv for kv in sorted(shapes.items()))))
     vf.conformance(v, sc, driver, "Trace_Auction", "Trace_Auction.cfg", sig_of, nontrivial, dfs=True,
                    chunk=400 if tier == "thorough" else None)
+    catalogue(v, tier)
     v.coverage["rule"] = ("histories of Auction.tla generated by TLC simulation (seeded) for both strategies - two or three auctions on "
                           "one instance with per-auction relay configurations, builder catalogues and bids, sequential or overlapping, "
                           "serves in between - each replayed on ONE real best/deadline strategy service under ONE real block relay "
@@ -283,5 +340,8 @@ def replay(path):
     v = vf.Verdict(PID, "quick")
     with open(os.path.join(path, "scenario.json")) as fh:
         s = json.load(fh)
+    if any(x.get("ev") == "Build" for x in s["steps"]):
+        vf.conformance(v, [s], cat_driver, "Trace_BuilderCatalogue", "Trace_BuilderCatalogue.cfg", cat_sig_of, cat_nontrivial)
+        return 1 if v.violations else 0
     vf.conformance(v, [s], driver, "Trace_Auction", "Trace_Auction.cfg", sig_of, nontrivial, dfs=True)
     return 1 if v.violations else 0
